@@ -616,7 +616,7 @@ fn program_cases(thorough: bool, rng: &mut Rng, f: &mut dyn FnMut(Case)) {
                              ("(({a}).step_to(0, {b})).take(3).to_tuple()", "number.step_to"),
                              ("(({a}).step_to({b}, 0)).take(3).to_tuple()", "number.step_to"),
                              ("(({a}).step_to({b}, {b})).reversed().take(2).to_tuple()", "number.step_to"),
-                             ("(({b}).step_to({a}, 9223372036854775807)).to_tuple()", "number.step_to"),
+                             ("(({b}).step_to({a}, 9223372036854775807)).take(5).to_tuple()", "number.step_to"),
                              ("i = ({a}).step_to({b}, 4611686018427387904)\n(i.next_back(), i.next(), i.next_back(), i.next())", "number.step_to")] {
                 let body = t.replace("{a}", a.expr).replace("{b}", b.expr);
                 f(mk(&[a, b], body, vec![api.to_string()]));
